@@ -167,6 +167,13 @@ fn judge_execution(which: Which, ex: &Execution, range_viol: &[String], part: &m
             if k4 > 0 {
                 part.known(lin::SIG_K4, k4);
             }
+            {
+                let mut lst = LinStats { ids_searched: 0, nodes: 0, capped: 0 };
+                for f in lin::cancelled_orders_linearizable(ex, &mut lst) {
+                    out.push(format!("acknowledged cancel does not fit the order's history: {}", f));
+                }
+                part.add("cancelled_order_histories_searched", lst.ids_searched);
+            }
         }
         Which::C15 => {
             out.extend(lin::stats_vs_events(ex));
@@ -537,6 +544,13 @@ fn e2_pass(which: Which, rep: &mut Report, n: u64) {
                         part.known(lin::SIG_K4, k4);
                     }
                     part.add("e2_not_found_replies", st.not_found);
+            {
+                let mut lst = LinStats { ids_searched: 0, nodes: 0, capped: 0 };
+                for f in lin::cancelled_orders_linearizable(&ex, &mut lst) {
+                    findings.push(format!("acknowledged cancel does not fit the order's history: {}", f));
+                }
+                part.add("cancelled_order_histories_searched", lst.ids_searched);
+            }
                 }
                 Which::C15 => findings.extend(lin::stats_vs_events(&ex)),
             }
@@ -1691,6 +1705,13 @@ pub fn exchange(rep: &mut Report, which: Which, ops_per_thread: u64, warm: usize
                 rep.known(lin::SIG_K4, k4);
             }
             rep.add("exchange_not_found_replies", st.not_found);
+            {
+                let mut lst = LinStats { ids_searched: 0, nodes: 0, capped: 0 };
+                for f in lin::cancelled_orders_linearizable(&ex, &mut lst) {
+                    findings.push(format!("acknowledged cancel does not fit the order's history: {}", f));
+                }
+                rep.add("cancelled_order_histories_searched", lst.ids_searched);
+            }
         }
     }
     let (inc, findings): (Vec<String>, Vec<String>) = findings.into_iter().partition(|f| f.starts_with(lin::INCONCLUSIVE));
